@@ -213,12 +213,16 @@ def gen_block(rng, kind, tr_ids=(), wild=False):
             else:
                 univs.append(('v', rng.choice([1, 2, 3, 7, 0])))
                 total += 1
+        surplus = False
         if wild and rng.random() < 0.25:
-            univs = univs[:-1] if rng.random() < 0.5 else univs + [('v', 9)]
+            surplus = rng.random() < 0.5
+            univs = univs + [('v', 9)] if surplus else univs[:-1]
         toks = [f'{lo}:{hi}' for lo, hi in ranges]
         toks += [(f'{n}r' if t == 'r' else str(n)) for t, n in univs]
+        # a surplus array entry is read as the first transformation parameter:
+        # no further parameters then (a shifted matrix is C04's subject)
         params = [] if rng.random() < 0.7 or wild and rng.random() < 0.5 \
-            else gen_params(rng, (), False)
+            or surplus else gen_params(rng, (), False)
         if len(params) == 1:
             params = []
         return {'kind': 'fillarr', 'kw': 'fill', 'vals': toks,
